@@ -31,13 +31,15 @@ LABELS = ["bad-type-name", "bad-field-name", "bad-argument-name", "bad-input-fie
           "output-type-in-input-position", "output-type-in-input-field", "interface-field-missing", "interface-field-not-covariant",
           "interface-argument-missing", "interface-argument-retyped", "interface-extra-required-argument", "non-object-union-member",
           "non-object-root", "missing-query-root", "resolver-missing-parameter", "resolver-optional-argument-without-default",
-          "resolver-too-few-positionals", "resolver-extra-required-parameter"]
+          "resolver-too-few-positionals", "resolver-extra-required-parameter", "resolver-required-keyword-only-parameter"]
 
 
 
-def inject(draw, spec, label, used, uid):
-    """mutate spec in place; -> (token expected in an error message, resolvers dict additions) or None"""
+def inject(draw, spec, label, used, uid, extra=None):
+    """mutate spec in place; -> (token expected in an error message, resolvers dict additions) or None.
+    extra: list receiving (label, token, None) of further violations placed on the *same* element (all have to be reported)"""
     types = spec["types"]
+    extra = extra if extra is not None else []
 
     def pick(kinds, need=None):
         ns = [n for n in spec["order"] if types[n]["kind"] in kinds and n not in used and not n.startswith("Empty")
@@ -63,6 +65,18 @@ def inject(draw, spec, label, used, uid):
         new = badname("T")
         _rename_type(spec, n, new)
         used.add(new)
+        if draw(st.booleans()):
+            # a second violation inside the badly named type: both have to be reported
+            t = types[new]
+            if t["kind"] == "enum":
+                t["values"].append({"name": badname("V"), "value": "x%d" % uid})
+                extra.append(("bad-enum-value-name/in-type-with-invalid-name", t["values"][-1]["name"], None))
+            elif t["kind"] == "input":
+                t["fields"].append({"name": badname("i"), "type": "Int"})
+                extra.append(("bad-input-field-name/in-type-with-invalid-name", t["fields"][-1]["name"], None))
+            elif t["kind"] == "object" and not t.get("interfaces"):
+                t["fields"].append({"name": badname("f"), "type": "Int", "args": []})
+                extra.append(("bad-field-name/in-type-with-invalid-name", t["fields"][-1]["name"], None))
         return new, {}
     if label == "bad-field-name":
         n = pick(("object", "interface"))
@@ -183,6 +197,16 @@ def inject(draw, spec, label, used, uid):
             of["type"] = GS.show_t(GS.nullable(t)) if t[0] == "nn" and GS.parse_t(ifield["type"])[0] == "nn" else ("[%s]" % of["type"] if t[0] != "list" and GS.nullable(t)[0] != "list" else "Int")
             if GS.parse_t(ifield["type"])[0] != "nn" and of["type"].startswith("[") is False:
                 of["type"] = "Int" if GS.named(GS.parse_t(ifield["type"])) != "Int" else "String"
+            if draw(st.booleans()):
+                # ... and an argument of that same field retyped as well
+                ifield.setdefault("args", []).append({"name": "ia%d" % uid, "type": "Int"})
+                of.setdefault("args", []).append({"name": "ia%d" % uid, "type": "String"})
+                for o in spec["order"]:
+                    if o != n and types[o]["kind"] == "object" and i in types[o].get("interfaces", []):
+                        for f in types[o]["fields"]:
+                            if f["name"] == ifield["name"]:
+                                f.setdefault("args", []).append({"name": "ia%d" % uid, "type": "Int"})
+                extra.append(("interface-argument-retyped/on-field-with-mismatching-type", "ia%d" % uid, None))
             return ifield["name"], {}
         if label == "interface-argument-missing":
             ifield.setdefault("args", []).append({"name": "ia%d" % uid, "type": "Int"})
@@ -235,6 +259,9 @@ def inject(draw, spec, label, used, uid):
         if label == "resolver-extra-required-parameter":
             types[n]["fields"].append({"name": fname, "type": "Int", "args": []})
             return fname, {(n, fname): lambda root, ctx, info, extra: 1}
+        if label == "resolver-required-keyword-only-parameter":
+            types[n]["fields"].append({"name": fname, "type": "Int", "args": []})
+            return fname, {(n, fname): BAD_RESOLVERS[label]}
     return None
 
 
@@ -263,6 +290,7 @@ GOOD_RESOLVERS = [
     lambda root, ctx, info, **kw: 1,
     lambda *a, **kw: 1,
     lambda root, ctx, info, *a, **kw: 1,
+    lambda *a, opt_kw=1, **kw: 1,
 ]
 
 
@@ -383,6 +411,7 @@ BAD_RESOLVERS = {
     "resolver-too-few-positionals": lambda root, ctx: 1,
     "resolver-extra-required-parameter": lambda root, ctx, info, extra: 1,
     "bad-arity": lambda root: 1,
+    "resolver-required-keyword-only-parameter": lambda *a, extra_kw: 1,   # nothing ever passes extra_kw: every call fails
 }
 
 
@@ -403,18 +432,21 @@ def cases(draw):
         used, items = set(), []
         for uid in range(k):
             lab = draw(st.sampled_from(LABELS))
-            r = inject(draw, m, lab, used, uid + 1)
+            more = []
+            r = inject(draw, m, lab, used, uid + 1, more)
             if r is None:
                 continue
             tok, res = r
             items.append((lab, tok, list(list(res)[0]) if res else None))
+            items.extend(more)
         if items:
             case["injected"] = {"spec": json.loads(json.dumps(m)), "items": items, "order": list(draw(st.permutations(m["order"])))}
     if draw(st.booleans()):
         objs = [(n, f["name"]) for n in spec["order"] if spec["types"][n]["kind"] == "object" for f in spec["types"][n]["fields"] if not f.get("args")]
         if objs:
             hist = []
-            kinds = [0, 1, 2, "resolver-too-few-positionals", "resolver-extra-required-parameter", "bad-arity"]
+            kinds = [0, 1, 2, 3, "resolver-too-few-positionals", "resolver-extra-required-parameter", "bad-arity",
+                     "resolver-required-keyword-only-parameter"]
             if draw(st.booleans()):
                 hist.append(("schema-default", draw(st.sampled_from(kinds))))
             for _ in range(draw(st.integers(2, 7))):
